@@ -113,10 +113,11 @@ def random_schedule(rng):
         t += rng.choice([0, 0, 1, 50, 200, 1000])
         steps.append({"at": t, "do": "rx", "r": rng.choice([1, 2]), "ty": rng.choice(["CON", "NON"]), "code": method,
                       "mid": 900 + i, "tok": "e%d" % i, "path": ["h", str(i)] if kind != "nopath" else ["x", "y", str(i)]})
-    # the peer's ACK for a separate CON response may be late or lost, so that the response is retransmitted
-    # while other requests are being answered
+    # the peer's ACK for a separate CON response may be late, so that the response is retransmitted while
+    # other requests are being answered; it always comes eventually (a peer that never acknowledges makes
+    # the message layer drop what is queued behind the exchange -- C14's subject, outside C09's quantifier)
     trig = [{"on": {"tx": {"ty": "CON", "cls": "resp", "nth": k}}, "delay": rng.choice([1, 4, 900, 2600, 7000]),
-             "rx": {"ty": "ACK", "code": 0, "mid": "same"}} for k in range(1, 6) if rng.random() < 0.8]
+             "rx": {"ty": "ACK", "code": 0, "mid": "same"}} for k in range(1, 8)]
     return {"tuning": {"EMPTY_ACK_DELAY": 0.125}, "mid0": rng.randint(0, 65535), "tok0": 3, "nremotes": 2,
             "handlers": handlers, "nosite": nosite, "steps": steps, "triggers": trig, "horizon": 120 * 1024}
 
